@@ -73,7 +73,7 @@ func runReprepare(t *testing.T, out *vfh.Out, kind int) {
 			return false
 		}
 	}
-	if !ok(inDump, 5*time.Second) {
+	if !ok(inDump, 30*time.Second) {
 		out.Line(new(vfh.Toks).S("rp").N(kind).String(), "0 0 0")
 		close(release)
 		return
@@ -82,11 +82,11 @@ func runReprepare(t *testing.T, out *vfh.Out, kind int) {
 	go func() { _ = p.Prepare(lo); close(prepDone) }()
 	time.Sleep(20 * time.Millisecond) // let Prepare get as far as it can while the scrape is inside the dump
 	close(release)
-	s1 := ok(scrapeDone, 5*time.Second)
-	s2 := ok(prepDone, 5*time.Second)
+	s1 := ok(scrapeDone, 20*time.Second)
+	s2 := ok(prepDone, 20*time.Second)
 	later := make(chan struct{})
 	go func() { _, _ = mm.Series(); close(later) }()
-	s3 := ok(later, 5*time.Second)
+	s3 := ok(later, 20*time.Second)
 	out.Line(new(vfh.Toks).S("rp").N(kind).String(), new(vfh.Toks).B(s1).B(s2).B(s3).String())
 	out.Flush()
 }
